@@ -168,6 +168,7 @@ SubValue(cf, T, lm, maxc, d, i, l) ==
           [] cf.version = 8 -> Modify(Loop68(0, 0, sv, maxc, d, cf.D, ml - 1, 64), l, ml, lm[d], cf.lmin)
           [] cf.version = 7 -> Modify(Loop7(0, 0, sv, maxc, cf.D, 64), l, ml, lm[d], cf.lmin)
           [] cf.version = 3 /\ ml > 2 -> IF sv % cf.D > d - 1 THEN sv \div cf.D + 1 ELSE sv \div cf.D
+          [] cf.version \in {0, 1} -> 0          \* versions outside 2..8: no coarsening of the point sets at all
           [] OTHER -> sv
 
 (* the 1-D point set (as a set of lattice positions) of dimension d for component level l *)
